@@ -170,6 +170,11 @@ def run(c):
                    "_expect": [7] if runner == "ns" else [4]})
         vc.append({"id": len(vc), "kind": "run", "runner": runner, "args": ["mem", str(64 << 20)], "ml": 8 << 20,
                    "_expect": [1] if runner == "container" else [3]})
+    # beyond a bound of the runner and then dead of a signal: the bound decides the verdict (checked before the wait status)
+    for runner in ("ptrace", "ns"):
+        vc.append({"id": len(vc), "kind": "run", "runner": runner, "args": ["memfault", str(64 << 20)], "ml": 8 << 20, "_expect": [3]})
+        vc.append({"id": len(vc), "kind": "run", "runner": runner, "args": ["spinfault", "700"], "tl_ms": 200, "_expect": [2]})
+        vc.append({"id": len(vc), "kind": "run", "runner": runner, "args": ["memfault", str(1 << 20)], "ml": 64 << 20, "_expect": [6]})
     vo = c.run_harness(exe, [{k: v for k, v in x.items() if not k.startswith("_")} for x in vc], env=env, timeout=300)
     items = []
     for x, o in zip(vc, vo):
@@ -179,6 +184,8 @@ def run(c):
         if o["status"] not in x["_expect"]:
             c.finding_or_violation({"kind": "exhaustion-verdict", "runner": x["runner"], "program": x["args"][0],
                                     "expected_status": x["_expect"], "observed_status": o["status"], "exit": o["exit"]}, {"observed": o})
+        if x["args"][0] in ("memfault", "spinfault") and o["status"] in (2, 3):
+            items.append("(%s, %s, %s, %s, %s)" % (coq_Z(o["time_ns"]), coq_Z(x.get("tl_ms", 20000) * 10 ** 6), coq_N(o["mem"]), coq_N(x.get("ml", 1 << 40)), coq_N(o["status"])))
         if x["args"][0] == "mem":
             if o["mem"] < (60 << 20):
                 c.finding_or_violation({"kind": "memory-measurement", "runner": x["runner"], "mem": o["mem"]}, {"observed": o})
